@@ -1,10 +1,10 @@
-"""tools/mk_tasks.py <ids>: creates a scratch worktree /tmp/mut12_<id> of /repo per property with a TASK.md for a fresh sub-agent
+"""tools/mk_tasks.py <ids>: creates a scratch worktree /tmp/mut13_<id> of /repo per property with a TASK.md for a fresh sub-agent
 (the property text and the list of ideas already used; nothing from /verif)."""
 import json, os, subprocess, sys, glob
 props = {json.loads(l)['id']: json.loads(l) for l in open('/verif/properties.jsonl')}
 ids = sys.argv[1:]
 for pid in ids:
-    wt = f"/tmp/mut12_{pid}"
+    wt = f"/tmp/mut13_{pid}"
     if not os.path.exists(wt):
         subprocess.check_call(["git", "-C", "/repo", "worktree", "add", "--detach", wt, "HEAD"], stdout=subprocess.DEVNULL)
     p = props[pid]
